@@ -399,3 +399,23 @@ Proof.
     assert (Hln : ln = N.of_nat n) by (unfold ln, g_byte, wrap_u; change (2 ^ 8) with 256; lia).
     rewrite Hln. reflexivity.
 Qed.
+
+(* ---- NewMTData2Package (with SetLength and SetIdentifier writing through the slice) ---- *)
+Theorem new_packet_agrees len t c p : 0 <= len < 256 -> 0 <= Gen.Funcs.f_DataIdentifier_Uint16 t c p ->
+  g_NewMTData2Package len (t, c, p) =
+  Val (new_packet (Z.to_N len) (Z.to_N (Gen.Funcs.f_DataIdentifier_Uint16 t c p))).
+Proof.
+  intros Hl Hw. unfold g_NewMTData2Package, new_packet, g_make.
+  destruct (Z.ltb_spec (3 + len) 0); [lia|]. cbn [rbind].
+  replace (Z.to_nat (3 + len)) with (3 + Z.to_nat len)%nat by lia. cbn [Nat.add repeat].
+  unfold g_MTData2Packet_SetLength. change 2 with (Z.of_nat 2) at 1. rewrite g_set_nat by (cbn [length]; lia). cbn [rbind upd].
+  unfold g_MTData2Packet_SetIdentifier, g_put16_in, g_len. cbn [length].
+  destruct (Z.ltb_spec 0 0); [lia|]. destruct (Z.ltb_spec 2 0); [lia|].
+  match goal with |- context [(?a <? 2)] => destruct (Z.ltb_spec a 2); [lia|] end.
+  destruct (Z.ltb_spec (2 - 0) 2); [lia|]. cbn [orb rbind]. change (Z.to_nat 0) with 0%nat. cbn [upd Nat.add app].
+  set (w := Gen.Funcs.f_DataIdentifier_Uint16 t c p) in *.
+  rewrite Z_N_nat.
+  replace (g_byte (w / 256 mod 256)) with ((Z.to_N w / 256) mod 256)%N by (unfold g_byte; lia).
+  replace (g_byte (w mod 256)) with (Z.to_N w mod 256)%N by (unfold g_byte; lia).
+  reflexivity.
+Qed.
